@@ -31,7 +31,7 @@ def programs():
 
   def a_step(st, b):
     k, u = jax.random.split(st['key'])
-    m = jnp.mean(b['x'])
+    m = jnp.sum(jnp.where(b['__mask__'], b['x'], 0.0)) / jnp.sum(b['__mask__'])
     nxt = {'acc': st['acc'] / m + jax.random.uniform(u, ()), 'n': st['n'] + 1, 'key': k,
            'seen': jnp.logical_or(st['seen'], b['x'] > 1.5)}
     # 'resid' has the shape/dtype of the batch leaf and 'echo' (below) that of the shared input: XLA only honours a
@@ -60,7 +60,10 @@ def make_inputs(profile, seed):
   shared = {'w': jnp.asarray([1.0, 2.0 + seed % 3]), 'b': jnp.asarray(3, jnp.int32)}
   clients = []
   for i, k in enumerate(profile):
-    batches = [{'x': jnp.asarray([1.0 + i, 2.0 + j + 0.5 * (seed % 2)])} for j in range(k)]
+    # batches carry the padding-mask feature; clients with MORE batches hold FEWER real rows per batch, so ordering
+    # clients by number of real examples differs from ordering them by number of batches
+    batches = [{'x': jnp.asarray([1.0 + i, 2.0 + j + 0.5 * (seed % 2)]),
+                '__mask__': jnp.asarray([True, k < 2])} for j in range(k)]
     ci = {'scale': jnp.asarray(1.0 + i), 'key': jax.random.PRNGKey(10 + i)}
     clients.append((b'c%d' % i if i % 2 else i, batches, ci))
   return shared, clients
@@ -168,6 +171,16 @@ def fold(case):
       for a in leaves(g[1]):
         if isinstance(a, jax.Array):
           require(not a.is_deleted(), 'an output array is already deleted', case=nc)
+    # history on ONE function object: the caller replaces an entry of the same shared container and calls again
+    shared['w'] = shared['w'] * 0.5 + 1.0
+    expect2 = sequential(prog, shared, clients)
+    got2 = {g[0]: g for g in f(shared, iter(clients) if case.get('iter') else clients)}
+    require(sorted(map(repr, got2)) == sorted(map(repr, expect2)), 'second call: result ids differ', case=nc)
+    for cid, (eo, er) in expect2.items():
+      for a, b in zip(leaves(got2[cid][1]), leaves(eo)):
+        require(bool(np.allclose(np.asarray(a, np.float64), np.asarray(b, np.float64), rtol=1e-5, atol=1e-6)),
+                'client %r: a second call with an updated shared input returned results for a stale shared input' % cid,
+                np.asarray(b).tolist(), np.asarray(a).tolist(), case=nc)
     outs.add(core.digest([[repr(c), [np.asarray(x, np.float64).round(4).tolist() for x in leaves(expect[c][0])]] for c in expect]))
     evals += 1
   return {'evals': evals, 'outcomes': sorted(outs), 'nontrivial': len(set(profile)) > 1 or 0 in profile,
@@ -274,7 +287,9 @@ def _thread_body(prog, sink):
   def body(point):
     obs = []
     sink.append(obs)
-    fec.set_for_each_client_backend(None)  # fresh thread-local start (also under a shared-variable mutant)
+    # a thread that has never selected a backend must see the default - whatever threads that lived (and died)
+    # before it selected: no reset here, the very first observation is part of the oracle
+    obs.append(observe())
     run_prog(prog, obs, point)
     point()
     obs.append(observe())
@@ -290,7 +305,7 @@ def threads(case):
   bound = case['bound']
   expect = []
   for p in progs:
-    o = []
+    o = ['default']
     cur = ref_prog(p, None, o)
     o.append('default' if cur is None else cur)
     expect.append(o)
